@@ -122,8 +122,8 @@ func (e *env) runBytes(run []tk.KV) (keys, vals [][]byte) {
 	for _, x := range run {
 		keys = append(keys, e.key(x.K))
 		v := tk.ValBytes(x.V)
-		if v == nil {
-			v = []byte{}
+		if v == nil && e.r.Intn(2) == 0 {
+			v = []byte{} // the empty value as nil or as empty non-nil slice
 		}
 		vals = append(vals, v)
 	}
